@@ -104,6 +104,7 @@ func (vc *VC) globalDecls() string {
 			sb.WriteString(vc.pureDecls[n] + "\n")
 		}
 	}
+	pureAx := ""
 	if vc.cs != nil {
 		var names []string
 		for n, d := range vc.cs.Defs {
@@ -144,6 +145,7 @@ func (vc *VC) globalDecls() string {
 			fmt.Fprintf(&sb, "(define-fun-rec spec.%s (%s) Int %s)\n", n, strings.Join(ps, " "), body.S)
 		}
 	}
+	sb.WriteString(pureAx)
 	return sb.String()
 }
 
@@ -154,6 +156,7 @@ func (vc *VC) globalDecls() string {
 // skipCovers drops the return-reachability covers (sampled on large splits).
 func (s *Script) renderInstance(sb *strings.Builder, instIdx int, inst []int, only map[int]bool, modelTerms []string, batch, skipCovers bool) (trivial []int) {
 	sb.WriteString("(push 1)\n")
+	sb.WriteString(s.Preamble)
 	splitVal := map[string]int{}
 	for i, sp := range s.Splits {
 		splitVal[sp.Var] = inst[i]
@@ -424,13 +427,37 @@ func (r *Runner) Run(scripts []*Script) []*ObResult {
 			structs[name] = append(structs[name], fl.Name)
 		}
 	}
+	axioms := r.vc.pureAxiomsByName()
 	for _, sc := range scripts {
 		sc.Structs = structs
+		var sb strings.Builder
+		var names []string
+		for n := range axioms {
+			names = append(names, n)
+		}
+		sort.Strings(names)
+		for _, n := range names {
+			if sc.CalledPure[n] {
+				continue // the call site already assumes the contract for the actual arguments
+			}
+			used := false
+			for _, it := range sc.Items {
+				if (it.Ob != nil && strings.Contains(it.Ob.Goal, n)) || strings.Contains(it.Text, n) {
+					used = true
+					break
+				}
+			}
+			if used {
+				sb.WriteString(axioms[n])
+			}
+		}
+		sc.Preamble = sb.String()
 	}
 	type job struct {
 		sc    *Script
 		insts [][]int
 		base  int
+		only  map[int]bool
 	}
 	var jobs []job
 	for _, sc := range scripts {
@@ -450,6 +477,24 @@ func (r *Runner) Run(scripts []*Script) []*ObResult {
 			r.Sampled = append(r.Sampled, map[string]interface{}{"function": sc.FuncName, "split_instances_checked": len(keep), "split_instances_total": len(insts), "stride": sc.QuickStride})
 			insts = keep
 		}
+		if len(insts) == 1 && nobs > 12 {
+			// one instance with many obligations: split the obligations over the workers
+			groups := r.Workers
+			if groups > nobs/4 {
+				groups = nobs / 4
+			}
+			if groups < 1 {
+				groups = 1
+			}
+			for g := 0; g < groups; g++ {
+				only := map[int]bool{}
+				for j := g; j < nobs; j += groups {
+					only[j] = true
+				}
+				jobs = append(jobs, job{sc: sc, insts: insts, base: 0, only: only})
+			}
+			continue
+		}
 		// chunk instances so that every worker has something to do
 		per := 1
 		if len(insts) > r.Workers*4 {
@@ -463,7 +508,7 @@ func (r *Runner) Run(scripts []*Script) []*ObResult {
 			if j > len(insts) {
 				j = len(insts)
 			}
-			jobs = append(jobs, job{sc, insts[i:j], i})
+			jobs = append(jobs, job{sc: sc, insts: insts[i:j], base: i})
 		}
 	}
 	var results []*ObResult
@@ -474,7 +519,7 @@ func (r *Runner) Run(scripts []*Script) []*ObResult {
 		go func() {
 			defer wg.Done()
 			for jb := range ch {
-				rs := r.runJob(header, jb.sc, jb.insts, jb.base)
+				rs := r.runJob(header, jb.sc, jb.insts, jb.base, jb.only)
 				r.mu.Lock()
 				results = append(results, rs...)
 				r.mu.Unlock()
@@ -542,7 +587,7 @@ func (r *Runner) Run(scripts []*Script) []*ObResult {
 	return results
 }
 
-func (r *Runner) runJob(header string, sc *Script, insts [][]int, base int) []*ObResult {
+func (r *Runner) runJob(header string, sc *Script, insts [][]int, base int, only map[int]bool) []*ObResult {
 	obs := sc.obligations()
 	sv := solverCmd(r.Primary, r.TimeoutMs)
 	ninst := len(sc.instances())
@@ -578,7 +623,7 @@ func (r *Runner) runJob(header string, sc *Script, insts [][]int, base int) []*O
 		sb.WriteString(header)
 		for _, i := range sel {
 			skip := sampleCovers && (base+i)%coverStep != 0
-			for _, t := range sc.renderInstance(&sb, i, insts[i], nil, nil, batch, skip) {
+			for _, t := range sc.renderInstance(&sb, i, insts[i], only, nil, batch, skip) {
 				trivial[[2]int{i, t}] = true
 			}
 		}
@@ -635,6 +680,9 @@ func (r *Runner) runJob(header string, sc *Script, insts [][]int, base int) []*O
 	for i, inst := range insts {
 		skip := sampleCovers && (base+i)%coverStep != 0
 		for j, ob := range obs {
+			if only != nil && !only[j] {
+				continue
+			}
 			if ob.ExpectSat && skip && ob.Name != "V/requires-sat" && ob.Name != "V/hypotheses-sat" {
 				continue
 			}
